@@ -19,6 +19,15 @@ Theorem C31_client_hello_priv_pub_priv : forall m, exists c, ch_getPublicPtr (So
 Proof. exact ch_priv_pub_priv. Qed.
 Print Assumptions C31_client_hello_priv_pub_priv.
 
+(* a view that was converted before (so its cache pointer holds the EARLIER private struct) and then edited to ANY
+   other field values converts exactly like a fresh view with those values: the conversion never reads the cache *)
+Theorem C31_client_hello_reconversion_after_edit : forall c0 c1 p0 c0' p1 c1',
+  CH_getPrivatePtr (Some c0) = Some (p0, c0') ->
+  CH_getPrivatePtr (Some (CH_set_cached c1 (CH_cachedPrivateHello c0'))) = Some (p1, c1') ->
+  p1 = CH_private_of c1 /\ exists c2, ch_getPublicPtr (Some p1) = Some c2 /\ CH_view c2 = CH_view c1.
+Proof. exact CH_reconversion. Qed.
+Print Assumptions C31_client_hello_reconversion_after_edit.
+
 (* whole-record identity unless a rebuilt slice is empty but not nil *)
 Theorem C31_client_hello_exact : forall c, CH_KeyShares c <> Some [] -> CH_PskIdentities c <> Some [] ->
   ch_getPublicPtr (Some (CH_private_of c)) = Some (CH_set_cached c (Some (CH_private_of c))).
